@@ -1144,7 +1144,7 @@ func main() {
 		reconnectScenario("reconnect-cleanup", shapes["cleanup"], q0, t1),
 		reconnectScenarioX("reconnect-states", shapes["two"], true, 0, q0, t1),
 		reconnectScenarioX("reconnect-staging", shapes["staging"], false, 5*time.Second, q0, t1),
-		restartScenarioX("restart-reconnect", shapes["two"], false, false, true, q0, t1),
+		restartScenarioX("restart-reconnect", shapes["two"], false, false, true, vrt.Bounds{Dev: 1, Seconds: 100}, t1),
 		restartScenario("restart-cleanup", shapes["cleanup"], false, false, q0, t1),
 		overlapScenario("reconnect-overlap", q0, t1),
 		restartScenarioY("restart-earlyenv", shapes["one"], false, false, false, true, q0, t1),
